@@ -1,5 +1,6 @@
 /* Array case kind of the container engine (C19).
  * ops:  il:<v> if:<v> ia:<idx>:<v>  rf rl ra:<idx>  at:<idx> first last len
+ *       a leading '!' on an insert: the allocator refuses every request during that call
  * output: one line "<k> R tok tok ... dump=v,v,v"
  */
 #include "ares_private.h"
@@ -25,6 +26,7 @@ static void run_arr(long k, char *ops)
     unsigned long idx = 0;
     ares_status_t st;
     destroyed_set = 0;
+    if (op[0] == '!') { dsa_alloc_fail_all = 1; op++; }
     if (sscanf(op, "il:%lld", &v) == 1) {
       st = ares_array_insertdata_last(arr, &v);
       printf(" %d", (int)st);
@@ -54,6 +56,7 @@ static void run_arr(long k, char *ops)
     } else {
       printf(" BADOP");
     }
+    dsa_alloc_fail_all = 0;
   }
   printf(" dump=");
   for (i = 0; i < ares_array_len(arr); i++) {
